@@ -287,7 +287,9 @@ impl BobState {
 
     /// Consume self and get the [`SyncOutcome`] for this connection.
     pub fn into_outcome(self) -> SyncOutcome {
-        self.progress.unwrap()
+        // `progress` is taken while a message is being processed and is not restored if that
+        // step fails, so it may be absent after `run` returned an error.
+        self.progress.unwrap_or_default()
     }
 }
 
